@@ -200,7 +200,7 @@ def register(P):
     P.ORACLE_COMPONENT["seqnr_distance"] = "seqnr"
     P.ORACLE_COMPONENT["rtte_bounds"] = "rtte"
     P.PROPS["C09"] = {
-        "lean": ["UtpVerif.Props.C09"],
+        "lean": ["UtpVerif.Props.C09", "UtpVerif.Props.C09Shift"],
         "components": ["seqnr"],
         "oracles": {"seqnr_distance": oracle_seqnr(P)},
         "directed": {"wrap_pairs": directed_seqnr(P)},
